@@ -5,6 +5,7 @@ import (
 	"fmt"
 	"os"
 	"os/exec"
+	"os/user"
 	"path/filepath"
 	"sort"
 	"strings"
@@ -17,7 +18,7 @@ import (
 type c16NativeCase struct {
 	agent, skill, sub string // sub: documented base below root (project or user)
 	user              bool
-	customKind        int    // 0 none, 1 absolute --path, 2 relative --path
+	customKind        int    // 0 none, 1 absolute --path, 2 relative --path, 3 --path starting with a literal ~/
 	baseState         int    // as in the symbolic loop: 0 absent, 1 dir, 2 file, 4..6 prior installation
 	umask             string // "" (inherited, 022) or an octal umask the installer process runs under
 	xdg               bool   // XDG_*_HOME set to directories unrelated to $HOME
@@ -67,7 +68,7 @@ func runC16Native(c *Ctx, repo, scratch, srcRoot string, tree *embTree, cases []
 		if err := os.MkdirAll(work, 0o755); err != nil {
 			return ran, err
 		}
-		var base string
+		var base, tildeName, stray string
 		args := []string{"llm-setup", cs.agent}
 		switch cs.customKind {
 		case 1:
@@ -76,6 +77,19 @@ func runC16Native(c *Ctx, repo, scratch, srcRoot string, tree *embTree, cases []
 		case 2:
 			base = filepath.Join(work, "rel", "dir")
 			args = append(args, "--path", "rel/dir")
+		case 3:
+			// literal tilde: the custom path as given is the relative path "~/<name>"; an
+			// installer that expands the tilde itself may only mean $HOME. Anything else
+			// (the passwd home of the account, say) is nowhere documented.
+			tildeName = fmt.Sprintf("kverif c16 tilde %d-%d", os.Getpid(), i)
+			base = filepath.Join(work, "~", tildeName)
+			args = append(args, "--path", "~/"+tildeName)
+			if u, err := user.Current(); err == nil && u.HomeDir != "" {
+				stray = filepath.Join(u.HomeDir, tildeName)
+				if _, err := os.Lstat(stray); err == nil {
+					stray = "" // not ours
+				}
+			}
 		default:
 			if cs.user {
 				base = filepath.Join(home, cs.sub)
@@ -126,6 +140,16 @@ func runC16Native(c *Ctx, repo, scratch, srcRoot string, tree *embTree, cases []
 		}
 		outB, runErr := cmd.CombinedOutput()
 		out := string(outB)
+		if stray != "" {
+			if _, err := os.Lstat(stray); err == nil {
+				_ = os.RemoveAll(stray) // a tilde expanded to the real account's home: clean up, reported below
+			}
+		}
+		if tildeName != "" {
+			if alt := filepath.Join(home, tildeName, cs.skill); strings.Contains(out, "Skills installed to: "+alt+"\n") {
+				expSkill = alt
+			}
+		}
 		after := snapshotTree(root)
 		ran++
 		caseName := fmt.Sprintf("native custom-kind=%d user=%v base-state=%d", cs.customKind, cs.user, cs.baseState)
